@@ -86,12 +86,12 @@ def transform_input(tr, rel, T):
   return tuple(args), pts
 
 
-def gen_case(rng, name, rel):
+def gen_case(rng, name, rel, directed=None):
   d = int(rng.integers(2, 6))
   if rel == 'orthogonal' and rng.random() < 0.5:
     d = int(rng.integers(4, 7))
   tr = gen.training(rng, name, d=d, sep=2.5)
-  if name == 'LFDA' and rng.random() < 0.4:
+  if name == 'LFDA' and (directed == 'singleton' or rng.random() < 0.4):
     # a class with a SINGLE member (any class layout is in the quantifier)
     y0 = np.asarray(tr['y'])
     c = int(rng.choice(np.unique(y0)))
@@ -106,6 +106,9 @@ def gen_case(rng, name, rel):
     o['n_chunks'] = min(o.get('n_chunks', 6), int(sum(c // o.get('chunk_size', 2) for c in np.bincount(tr['y']))))
   T = {'t': np.round(rng.normal(size=d) * 16.0) / 4.0, 'Q': rand_Q(rng, d), 'c': float(rng.choice([0.5, 2.0, 3.0, 0.75, 5.0, 2.0 ** -16, 2.0 ** -21, 2.0 ** 13])),
        'perm': rng.permutation(len(X))}
+  if directed == 'tiny_scale':
+    T['c'] = float(rng.choice([2.0 ** -16, 2.0 ** -21]))
+    o.pop('n_components', None)
   ev = {'ev': 'GeoCase', 'est': name, 'rel': rel, 'opt': opt, 'exc': '', 'd0': [], 'd1': [], 'c': dy(T['c']),
         'Q': dym(T['Q']) if rel == 'orthogonal' else [], 'M0': [], 'M1': [], 'dim': d}
   args1, pts = transform_input(tr, rel, T)
@@ -134,7 +137,7 @@ def gen_trace(recipe):
   events = []
   for _ in range(recipe['n']):
     for attempt in range(8):
-      ev = gen_case(rng, recipe['est'], recipe['rel'])
+      ev = gen_case(rng, recipe['est'], recipe['rel'], recipe.get('directed'))
       # SDML may legitimately raise RuntimeError when its solver cannot produce an SPD matrix (C13): such a case
       # says nothing about C19 and is redrawn
       if not (recipe['est'].startswith('SDML') and ev['exc'] == 'RuntimeError'):
@@ -156,6 +159,11 @@ def run(ctx):
   for rel, names in RELS.items():
     for name in names:
       rs.append(dict(est=name, rel=rel, n=n, seed=int(rng.integers(1 << 30))))
+  # directed: a class with a single member (LFDA), features scaled down by 2^-16 / 2^-21 (full-dimension RCA / Covariance)
+  for rel in ('translation', 'orthogonal'):
+    rs.append(dict(est='LFDA', rel=rel, n=n, directed='singleton', seed=int(rng.integers(1 << 30))))
+  for name in ('RCA', 'Covariance'):
+    rs.append(dict(est=name, rel='scaling', n=n, directed='tiny_scale', seed=int(rng.integers(1 << 30))))
   ctx.rule = ('every (relation, estimator) combination the statement lists: translation x 17, within-tuple swap x '
               '{ITML,MMC,SDML,LSML}, sample permutation x {Covariance,RCA}, scaling x {Covariance,RCA}, orthogonal maps '
               '(signed permutations, Hadamard blocks) x {Covariance,RCA,LFDA,LMNN(identity),ITML,LSML,MMC}; %d random '
